@@ -78,11 +78,17 @@ Record NI (n nt : nat) (o : nobj) : Prop := {
   ni_rel : nsum_ok n (q_rel o) (q_wrel o) (q_grel o);
   ni_det : nsum_ok n (q_det o) (q_wdet o) (q_gdet o);
   ni_tr : tr_ok nt o;
+  (* kept runs: runs_trace lists the traces of the sampled trajectories, in order *)
+  ni_nt : q_ntrajs o = if q_keep o then q_num o else 0%nat;
+  ni_rt : q_runs_trace o = if q_keep o then map n_tr (q_grel o) else [];
   (* a stored average_trace / std_trace is what _compute_avg_trace gives now *)
   ni_cache : forall c, q_cache o = Some c -> ncompute o = Some c }.
 
 Lemma NI_new n nt k : NI n nt (nnew k).
-Proof. constructor; simpl; auto; try discriminate. unfold tr_ok. simpl. auto. Qed.
+Proof.
+  constructor; simpl; auto; try discriminate; try (destruct k; reflexivity).
+  unfold tr_ok. simpl. auto.
+Qed.
 
 Lemma nsum_ok_reduce n nt s ws ts t w :
   length ws = length ts -> nshaped n nt t -> nsum_ok n s ws ts ->
@@ -145,6 +151,8 @@ Proof.
       rewrite vscale_nth, B, wsumN_snoc by assumption. reflexivity.
     + split; [assumption|]. intros k. rewrite vadd_nth by (rewrite vscale_length, vsq_length; lia).
       rewrite vscale_nth, vsq_nth, D, wsumN_snoc by assumption. reflexivity.
+  - rewrite (ni_nt n nt o HI). destruct (q_keep o); reflexivity.
+  - rewrite (ni_rt n nt o HI). destruct (q_keep o); [rewrite map_app|]; reflexivity.
 Qed.
 
 Lemma NI_add_det n nt o t w : NI n nt o -> nshaped n nt t -> NI n nt (nadd_det o t w).
@@ -343,9 +351,12 @@ Definition p_usedN (a b : nobj) (p : option Qc) : Qc :=
   match p with Some p => p | None => QcN (q_num a) / QcN (q_num a + q_num b) end.
 
 Lemma NI_merge n nt a b p : NI n nt a -> NI n nt b ->
-  is_some (q_tr a) = true -> is_some (q_tr b) = true -> NI n nt (nmerge_obj a b p).
+  is_some (q_tr a) = true -> is_some (q_tr b) = true ->
+  (0 < q_num a)%nat -> (0 < q_num b)%nat -> NI n nt (nmerge_obj a b p).
 Proof.
-  intros Ia Ib Ta Tb. unfold nmerge_obj. apply NI_with_cache; [|intros c' E; exact E].
+  intros Ia Ib Ta Tb Hna Hnb.
+  assert (Za : (0 <? q_num a)%nat = true) by (apply Nat.ltb_lt; assumption).
+  assert (Zb : (0 <? q_num b)%nat = true) by (apply Nat.ltb_lt; assumption). unfold nmerge_obj. apply NI_with_cache; [|intros c' E; exact E].
   pose proof (ni_tr n nt a Ia) as TA. pose proof (ni_tr n nt b Ib) as TB. unfold tr_ok in TA, TB.
   destruct (q_tr a) as [x|] eqn:Ea; [|discriminate]. destruct (q_tr b) as [y|] eqn:Eb; [|discriminate].
   destruct TA as (A0 & LA1 & LA2 & LA3 & LA4 & A1 & A2 & A3 & A4).
@@ -379,6 +390,14 @@ Proof.
     split.
     + destruct A0 as [A0|A0]; [left|right]; intros E; apply app_eq_nil in E; destruct E; contradiction.
     + repeat split; assumption.
+  - rewrite (ni_nt n nt a Ia), (ni_nt n nt b Ib).
+    destruct (q_keep a), (q_keep b); rewrite ?Za, ?Zb; reflexivity.
+  - rewrite (ni_rt n nt a Ia), (ni_rt n nt b Ib), (ni_nt n nt a Ia), (ni_nt n nt b Ib).
+    pose proof (ni_lg n nt a Ia) as La. pose proof (ni_lg n nt b Ib) as Lb.
+    destruct (q_keep a), (q_keep b); rewrite ?Za, ?Zb; simpl; try reflexivity.
+    + destruct (q_grel a) as [|ta ra]; [simpl in La; lia|].
+      destruct (q_grel b) as [|tb rb]; [simpl in Lb; lia|]. simpl. rewrite map_app. reflexivity.
+    + rewrite andb_false_r. reflexivity.
 Qed.
 
 (* ---- histories *)
@@ -413,7 +432,7 @@ Proof.
     assert (Ia : NI n nt a) by (eapply Forall_nth_error; eauto).
     assert (Ib : NI n nt b) by (eapply Forall_nth_error; eauto).
     apply Forall_app. split; [assumption|]. constructor; [|constructor].
-    apply NI_merge; auto; eapply tr_some; eauto; lia.
+    apply NI_merge; auto; try lia; eapply tr_some; eauto; lia.
   - destruct (nth_error W i) as [x|] eqn:E; simpl; [|assumption].
     destruct (nread_trace x) as [[x' c]|] eqn:R; simpl; [|assumption].
     apply Forall_set_nth; [assumption|]. eapply NI_read; eauto. eapply Forall_nth_error; eauto.
@@ -458,6 +477,17 @@ Proof.
       * intros [G1 G2]. destruct T; contradiction.
     + split; [intros _; exact T|]. intros _. destruct (q_cache x) as [c|]; [|reflexivity].
       specialize (C c eq_refl). discriminate.
+Qed.
+
+(* runs_trace is aligned with the sampled trajectories *)
+Lemma nreached_runs_trace n nt ops i x : Forall (nop_shaped n nt) ops -> nth_error (nrun [] ops) i = Some x ->
+  q_runs_trace x = (if q_keep x then map n_tr (q_grel x) else []) /\
+  q_ntrajs x = (if q_keep x then q_num x else 0%nat) /\
+  (q_keep x = true -> length (q_runs_trace x) = q_num x).
+Proof.
+  intros Hops E. pose proof (nreach n nt ops i x Hops E) as HI.
+  split; [apply (ni_rt n nt x HI)|]. split; [apply (ni_nt n nt x HI)|].
+  intros K. rewrite (ni_rt n nt x HI), K, map_length. apply (ni_lg n nt x HI).
 Qed.
 
 (* merge is the mixture for every statistic, with the martingale weight inside f *)
